@@ -17,6 +17,7 @@ import (
 	"github.com/bartossh/Computantis/src/protobufcompiled"
 	"github.com/bartossh/Computantis/src/serializer"
 	"github.com/bartossh/Computantis/src/spice"
+	"github.com/bartossh/Computantis/src/transformers"
 	"github.com/bartossh/Computantis/src/wallet"
 	"google.golang.org/grpc"
 	"google.golang.org/grpc/credentials/insecure"
@@ -487,6 +488,38 @@ func c15Worker(w *core.WorkerCtx) {
 			}
 		}
 		e.call("gossip", "GossipVrx", "vertex=nil", false, func() (any, error) { return rig.Gossip.GossipVrx(ctx, &protobufcompiled.VrxMsgGossip{}) })
+		// refused vertices that reference existing state: a vertex carrying a transaction that is awaiting on this node
+		for _, m := range vm {
+			if m.name == "unchanged" {
+				continue
+			}
+			aw := e.freshTrx(true)
+			if _, err := rig.Notary.Propose(ctx, aw); err != nil {
+				continue
+			}
+			e.last = nil
+			at, err := transformers.ProtoTrxToTrx(aw)
+			if err != nil {
+				continue
+			}
+			s, _ := ledger.TakeSnap(rig.Book)
+			var tip ledger.H
+			var wgt uint64
+			for t := range s.Leaves {
+				tip, wgt = t, s.Live[t].V.Weight
+			}
+			v := ledger.ForgeVertex(rig.PeerAct[0], at, tip, tip, wgt+1, time.Now().Add(-time.Second))
+			pv := gossip.VerifVertexToProtoVertex(&v)
+			m.apply(pv)
+			if pv.Transaction != nil {
+				// the reference to the awaiting entry stays intact; something else is wrong with the vertex
+				pv.Transaction.Hash = aw.Hash
+				pv.Transaction.ReceiverAddress = aw.ReceiverAddress
+			}
+			e.call("gossip", "GossipVrx", "carries an awaiting transaction; "+m.name, false, func() (any, error) {
+				return rig.Gossip.GossipVrx(ctx, &protobufcompiled.VrxMsgGossip{Vertex: pv})
+			})
+		}
 		// missing parent pull: the peers answer GetVertex with shaped vertices
 		for _, m := range vm {
 			m := m
